@@ -237,8 +237,9 @@ theorem simpsonWeights_on (g : G1) (hb : g.boundary = true) (k : ℕ) (hl : g.le
   unfold simpsonWeights
   have h3 : ¬ g.nwb < 3 := by
     rw [nwb_level_succ g k hl]; have := two_pow_pos k; omega
-  rw [if_neg h3]
-  simp only [hb, Bool.not_true, Bool.false_eq_true, if_false, nwb_level_succ g k hl]
+  rw [if_neg h3, lowerBorder_on g hb, upperBorder_on g hb, nwb_level_succ g k hl]
+  have := slice_zero_length (simpsonFull g.spacing (2 * 2 ^ k + 1))
+  simpa [simpsonFull] using this
 
 /-- the boundary-on Simpson rule of the model (level ≥ 1) is the sum of its Simpson panels, for EVERY integrand -/
 theorem simpson_eq_panels (g : G1) (hb : g.boundary = true) (k : ℕ) (hl : g.level = k + 1) (f : ℚ → ℚ) :
